@@ -22,6 +22,11 @@ def VState.frame (st : VState) : Frame := ⟨st.tsSeen, st.dimsSet, st.split, st
 @[simp] theorem err_frame (st : VState) (x : Err) : (st.err x).frame = st.frame := rfl
 @[simp] theorem err_errs (st : VState) (x : Err) : (st.err x).errs = st.errs ++ [x] := rfl
 @[simp] theorem err_vmap (st : VState) (x : Err) : (st.err x).vmap = st.vmap := rfl
+@[simp] theorem err_keys (st : VState) (x : Err) : (st.err x).keys = st.keys := rfl
+@[simp] theorem err_split (st : VState) (x : Err) : (st.err x).split = st.split := rfl
+@[simp] theorem err_tsSeen (st : VState) (x : Err) : (st.err x).tsSeen = st.tsSeen := rfl
+@[simp] theorem err_dimsSet (st : VState) (x : Err) : (st.err x).dimsSet = st.dimsSet := rfl
+@[simp] theorem err_unroutable (st : VState) (x : Err) : (st.err x).unroutable = st.unroutable := rfl
 
 theorem dimsStep_frame (sw : Switches) (st : VState) (d : Str) :
     (dimsStep sw st d).frame = st.frame ∧ ∃ l, (dimsStep sw st d).errs = st.errs ++ l := by
